@@ -66,16 +66,20 @@ def cases(draw):
     new = draw(vals)
     bad = kind in ("json", "pickle") and draw(st.sampled_from([True, False, False, False, False]))
     chunks = draw(st.integers(1, 4)) if kind in ("staged_write", "staged_write_path", "text", "binary") else 1
-    return {"kind": kind, "pathlib": draw(st.booleans()), "encoding": enc, "has_prev": has_prev,
+    # the target's file name, and a neighbour in the same directory written by another store meanwhile
+    name, nb = draw(st.sampled_from([("value.dat", "value.txt"), ("value.dat", "value"), ("value", "value.dat"),
+                                     ("data.tar.gz", "data.tar.bz2"), ("a.b", "a.c"), ("value.dat", "other.dat"),
+                                     ("value.dat", "value.dat.bak")]))
+    return {"name": name, "neighbour": nb, "kind": kind, "pathlib": draw(st.booleans()), "encoding": enc, "has_prev": has_prev,
             "prev": prev, "new": new, "bad": bad, "chunks": chunks}
 
 
-def make_writer(case, directory):
+def make_writer(case, directory, name=None):
     """Returns (target path, write(value), read())."""
     from uberjob import stores
     from uberjob.stores import staged_write, staged_write_path
 
-    path = os.path.join(directory, "value.dat")
+    path = os.path.join(directory, name or case.get("name", "value.dat"))
     p = pathlib.Path(path) if case["pathlib"] else path
     kind, enc = case["kind"], case["encoding"]
     if kind == "json":
@@ -137,8 +141,8 @@ def file_bytes(path):
         return None
 
 
-def staging_entries(directory):
-    return [n for n in os.listdir(directory) if n != "value.dat"]
+def staging_entries(directory, keep=("value.dat",)):
+    return [n for n in os.listdir(directory) if n not in keep]
 
 
 def check_case(ctx, case, record=True, only=None):
@@ -192,8 +196,57 @@ def check_case(ctx, case, record=True, only=None):
             os.mkdir(d)
             run_one(ctx, case, d, new, prev_bytes, new_bytes, k, fk, nops, oplog, record)
             shutil.rmtree(d, ignore_errors=True)
+        # another store writes a neighbouring file of the same directory between two operations of this write
+        if ok and only is None or (only is not None and only[1] == "neighbour"):
+            for k in ([only[0]] if only is not None else range(nops)):
+                d = os.path.join(root, f"n{k}")
+                os.mkdir(d)
+                run_neighbour(ctx, case, d, new, prev_bytes, new_bytes, k, nops, oplog, record)
+                shutil.rmtree(d, ignore_errors=True)
     finally:
         shutil.rmtree(root, ignore_errors=True)
+
+
+def run_neighbour(ctx, case, d, new, prev_bytes, new_bytes, k, nops, oplog, record):
+    """Before operation k of the write under test, a second store of the same kind completes a write to a
+    neighbouring file name in the same directory; afterwards BOTH targets hold their complete new values and
+    nothing else is left in the directory."""
+    path, write, read = make_writer(case, d)
+    npath, nwrite, nread = make_writer(case, d, name=case.get("neighbour", "value.txt"))
+    if case["has_prev"]:
+        with open(path, "wb") as f:
+            f.write(prev_bytes)
+    key_case = {"case": case, "k": k, "fault": "neighbour"}
+    opname = oplog[k][1] if k < len(oplog) else "-"
+    tag = f"[{case['kind']} neighbour {case.get('neighbour')!r} written before file op {k}/{nops} ({opname}) of {case.get('name')!r}] "
+    if record:
+        ctx.case(key_case, case["has_prev"] and 0 < k < nops - 1, [f"kind:{case['kind']}", "fault:neighbour", f"op:{opname}"])
+    nvalue = case["prev"] if case["has_prev"] else case["new"]
+    raised = None
+    with fsfaults.Injector(d, {"k": k, "kind": "call", "fn": lambda: nwrite(nvalue)}) as inj:
+        try:
+            write(new)
+        except BaseException as e:
+            raised = e
+    if raised is not None:
+        ctx.violation(key_case, tag + f"the write raised {raised!r}")
+    # reference bytes of the neighbour's value: written alone in a sibling directory
+    refd = d + ".ref"
+    os.mkdir(refd)
+    try:
+        rp, rw, _ = make_writer(case, refd, name=case.get("neighbour", "value.txt"))
+        rw(nvalue)
+        nbytes = file_bytes(rp)
+    finally:
+        shutil.rmtree(refd, ignore_errors=True)
+    got, ngot = file_bytes(path), file_bytes(npath)
+    if got != new_bytes:
+        ctx.violation(key_case, tag + f"target holds {got!r:.100} instead of its complete new value {new_bytes!r:.80}")
+    if ngot != nbytes:
+        ctx.violation(key_case, tag + f"the neighbour holds {ngot!r:.100} instead of its complete value {nbytes!r:.80}")
+    left = staging_entries(d, keep=(case.get("name", "value.dat"), case.get("neighbour", "value.txt")))
+    if left:
+        ctx.violation(key_case, tag + f"entries left behind in the directory: {left}")
 
 
 def run_one(ctx, case, d, new, prev_bytes, new_bytes, k, fk, nops, oplog, record):
@@ -249,7 +302,7 @@ def run_one(ctx, case, d, new, prev_bytes, new_bytes, k, fk, nops, oplog, record
         if not changed and got == new_bytes and got != prev_bytes:
             ctx.violation(key_case, tag + "new value in place but the modified time did not change")
     if fk != "exit" and raised is not None:
-        left = staging_entries(d)
+        left = staging_entries(d, keep=(case.get("name", "value.dat"),))
         if left:
             ctx.violation(key_case, tag + f"write failed with {type(raised).__name__} but left staging entries behind: {left}",
                           key="staging-left-when-replace-raises" if opname == "replace" else None)
